@@ -296,5 +296,172 @@ theorem deChecksums_ok (V : View C (docList t g) d) (hok : ChecksumsOK t.checksu
     rw [sortKV_nil] at hv ⊢
     simp [hs, bind, Except.bind, pure, Except.pure, hv]
 
+/-! ### images -/
+
+def isImg (s : Str) : Bool := Str.startsWith s pImages
+
+theorem isImg_prefix (x : Str) : isImg (pImages ++ x) = true := by
+  unfold isImg Str.startsWith
+  rw [pImages_eq]; simp [List.isPrefixOf]
+
+theorem isImg_head {s : Str} (h : isImg s = true) : s.head? = some 'i' := by
+  unfold isImg Str.startsWith at h
+  rw [pImages_eq] at h
+  cases s with
+  | nil => simp [List.isPrefixOf] at h
+  | cons c cs => simp [List.isPrefixOf] at h; simp [h.1.symm]
+
+theorem deImageSections_filter (d : Ini) (arch : Str) : ∀ (ss : List Str) (acc : List (Str × List (Str × Str))),
+    deImageSections d arch ss acc = deImageSections d arch (ss.filter isImg) acc
+  | [], _ => rfl
+  | s :: ss, acc => by
+    cases h : isImg s
+    · have : Str.startsWith s pImages = false := h
+      simp only [deImageSections, this, List.filter_cons, h]
+      exact deImageSections_filter d arch ss acc
+    · have h' : Str.startsWith s pImages = true := h
+      simp only [deImageSections, h', List.filter_cons, h, if_true]
+      cases items d s with
+      | error e => rfl
+      | ok its => exact deImageSections_filter d arch ss _
+
+/-- the names of the `images-*` sections among all section names -/
+theorem names_filter_img (t : TreeInfo) (g : IniSec) :
+    (((docList t g).map (·.1)).filter (· != DEFAULT)).filter isImg = (imgFlat t.images).map (·.1) := by
+  have none_of : ∀ l : List Str, (∀ s ∈ l, isImg s = false) → (l.filter (· != DEFAULT)).filter isImg = [] := by
+    intro l h
+    rw [List.filter_filter]
+    apply List.filter_eq_nil_iff.mpr
+    intro s hs; simp [h s hs]
+  have optF : ∀ (c : Bool) (s : Str) (o : IniSec), isImg s = false →
+      ∀ x ∈ (optSec c s o).map (·.1), isImg x = false := by
+    intro c s o hs x hx
+    unfold optSec at hx
+    split at hx
+    · simp at hx; subst hx; exact hs
+    · simp at hx
+  have flatF : ∀ x ∈ (flatVs none t.variants).map (·.1), isImg x = false := by
+    intro x hx
+    cases h : isImg x with
+    | false => rfl
+    | true =>
+      have h1 := isImg_head h
+      rcases keys_flatVs _ _ _ hx with h2 | h2 <;> rw [h2] at h1 <;> cases h1
+  have baseF : ∀ x ∈ (baseL t).map (·.1), isImg x = false := by
+    intro x hx
+    unfold baseL at hx
+    split at hx
+    · cases hb : t.baseProduct with
+      | none => simp [hb] at hx
+      | some p => simp [hb] at hx; subst hx; decide
+    · simp at hx
+  have imgT : (((imgFlat t.images).map (·.1)).filter (· != DEFAULT)).filter isImg = (imgFlat t.images).map (·.1) := by
+    rw [List.filter_filter]
+    apply List.filter_eq_self.mpr
+    intro s hs
+    have h1 := keys_imgFlat _ s hs
+    have h2 : isImg s = true := by
+      rw [imgFlat_keys] at hs
+      simp only [List.mem_reverse, List.mem_map] at hs
+      obtain ⟨p, _, rfl⟩ := hs
+      exact isImg_prefix _
+    have h3 : (s != DEFAULT) = true := by
+      simp only [bne_iff_ne, ne_eq]
+      intro e; rw [e] at h1; revert h1; decide
+    simp [h2, h3]
+  simp only [docList, List.map_append, List.filter_append]
+  rw [none_of _ (optF _ sMedia _ (by decide)), none_of _ (optF _ sStage2 _ (by decide)),
+    none_of _ (optF _ sChecksums _ (by decide)), none_of _ flatF, none_of _ baseF, imgT]
+  have e1 : (List.filter (fun x => x != DEFAULT) (List.map (fun x => x.fst) [(sGeneral, g)])).filter isImg = [] :=
+    none_of _ (by intro s hs; simp at hs; subst hs; decide)
+  have e2 : (List.filter (fun x => x != DEFAULT) (List.map (fun x => x.fst) [(sTree, treeOptsFull t)])).filter isImg = [] :=
+    none_of _ (by intro s hs; simp at hs; subst hs; decide)
+  have e3 : (List.filter (fun x => x != DEFAULT)
+      (List.map (fun x => x.fst) [(sRelease, releaseOpts t.release t.isLayered)])).filter isImg = [] :=
+    none_of _ (by intro s hs; simp at hs; subst hs; decide)
+  have e4 : (List.filter (fun x => x != DEFAULT) (List.map (fun x => x.fst) [(sHeader, headerOpts)])).filter isImg = [] :=
+    none_of _ (by intro s hs; simp at hs; subst hs; decide)
+  rw [e1, e2, e3, e4]
+  simp
+
+/-- image names are dictionary keys; no platform with images is named `<x>-<tree arch>` (F25) -/
+def ImagesOK (arch : Str) (images : List (Str × List (Str × Str))) : Prop :=
+  (∀ p ∈ images, (p.2.map (·.1)).Nodup) ∧ (∀ p ∈ images, platformOf arch (pImages ++ p.1) = p.1)
+
+def imgNorm (p : Str × List (Str × Str)) : Str × List (Str × Str) := (p.1, sortKV p.2)
+
+theorem deImageSections_ok (V : View C (docList t g) d) (hn : ((docList t g).map (·.1)).Nodup) (arch : Str)
+    (hok : ImagesOK arch t.images) (hC : ∀ p ∈ t.images, C (setsKV [] p.2)) :
+    ∀ (ps acc : List (Str × List (Str × Str))), (∀ p ∈ ps, p ∈ t.images) → ((acc ++ ps).map (·.1)).Nodup →
+      deImageSections d arch (ps.map fun p => pImages ++ p.1) acc = .ok (acc ++ ps.map imgNorm)
+  | [], acc, _, _ => by simp [deImageSections]
+  | p :: ps, acc, hsub, hnd => by
+    have hp := hsub p (List.mem_cons_self ..)
+    have hL := L_images (g := g) hn p hp
+    have hne : ((pImages ++ p.1) == DEFAULT) = false := by
+      rw [pImages_eq]; simp only [beq_eq_false_iff_ne, ne_eq]; intro e
+      have := congrArg List.head? e
+      simp at this; revert this; decide
+    have hit := V.items_of hL (hC p hp) hne
+    rw [setsKV_nil_nodup _ (hok.1 p hp)] at hit
+    have hfold : (sortKV p.2).foldl (fun m kv => setKV kv.1 kv.2 m) [] = sortKV p.2 :=
+      setsKV_nil_nodup _ (nodup_keys_sortKV _ (hok.1 p hp))
+    have hfresh : p.1 ∉ acc.map (·.1) := by
+      intro hm
+      rw [List.map_append, List.nodup_append] at hnd
+      exact hnd.2.2 _ hm _ (by simp) rfl
+    have hstart : Str.startsWith (pImages ++ p.1) pImages = true := isImg_prefix p.1
+    simp only [List.map_cons, deImageSections, hstart, if_true, hit, hfold, hok.2 p hp]
+    rw [setKV_append_fresh _ _ _ hfresh]
+    have := deImageSections_ok V hn arch hok hC ps (acc ++ [(p.1, sortKV p.2)])
+      (fun q hq => hsub q (List.mem_cons_of_mem _ hq)) (by simpa using hnd)
+    simpa [imgNorm] using this
+
+theorem nodup_of_map {α β} (f : α → β) : ∀ l : List α, (l.map f).Nodup → l.Nodup
+  | [], _ => List.nodup_nil
+  | x :: xs, h => by
+    simp only [List.map_cons, List.nodup_cons] at h
+    exact List.nodup_cons.mpr ⟨fun hm => h.1 (List.mem_map.mpr ⟨x, hm, rfl⟩), nodup_of_map f xs h.2⟩
+
+theorem platforms_nodup {t : TreeInfo} {g : IniSec} (hn : ((docList t g).map (·.1)).Nodup) : (t.images.map (·.1)).Nodup := by
+  have h1 : ((imgFlat t.images).map (·.1)).Nodup := by
+    simp only [docList, List.map_append, List.nodup_append] at hn
+    exact hn.2.1.2.1.2.1.1
+  rw [imgFlat_keys] at h1
+  have h2 : (t.images.map fun p => pImages ++ p.1).Nodup := (List.reverse_perm _).nodup_iff.mp h1
+  have h3 : ((t.images.map (·.1)).map (pImages ++ ·)).Nodup := by simpa [List.map_map, Function.comp_def] using h2
+  exact nodup_of_map _ _ h3
+
+theorem deImages_ok (V : View C (docList t g) d) (hn : ((docList t g).map (·.1)).Nodup) (tree' : Tree)
+    (hok : ImagesOK tree'.arch t.images) (hC : ∀ p ∈ t.images, C (setsKV [] p.2))
+    (hv : validateClass "treeinfo.Images" (imagesObj (sortKV (t.images.map imgNorm)) tree'.platforms) = .ok ()) :
+    deImages d tree' = .ok (sortKV (t.images.map imgNorm)) := by
+  have hpn := platforms_nodup hn
+  -- the section names the loop acts on
+  have hnames : (Ini.sections d).filter isImg = (sortKV t.images).map fun p => pImages ++ p.1 := by
+    rw [V.sections]
+    unfold sortS
+    rw [sortBy_filter, names_filter_img, imgFlat_keys]
+    have e1 : sortBy id (t.images.map fun p => pImages ++ p.1).reverse = sortBy id (t.images.map fun p => pImages ++ p.1) :=
+      sortS_perm_eq (List.reverse_perm _)
+    rw [e1]
+    have e2 : (t.images.map fun p => pImages ++ p.1) = (t.images.map (·.1)).map (pImages ++ ·) := by
+      simp [List.map_map, Function.comp_def]
+    rw [e2]
+    have e3 := sortS_map_prefix pImages (t.images.map (·.1))
+    unfold sortS at e3
+    rw [e3]
+    have e4 := sortS_map_key (fun p : Str × List (Str × Str) => p.1) t.images
+    unfold sortS at e4
+    rw [e4]
+    simp [sortKV, List.map_map, Function.comp_def]
+  have hloop := deImageSections_ok V hn tree'.arch hok hC (sortKV t.images) []
+    (fun p hp => (mem_sortKV _ _).mp hp) (by simpa using nodup_keys_sortKV _ hpn)
+  have hres : (sortKV t.images).map imgNorm = sortKV (t.images.map imgNorm) := (sortKV_map_same imgNorm (fun _ => rfl) _).symm
+  unfold deImages
+  rw [deImageSections_filter, hnames, hloop]
+  simp only [List.nil_append, hres]
+  simp [bind, Except.bind, pure, Except.pure, hv]
+
 end TI
 end PM
